@@ -9,6 +9,9 @@ import (
 	"time"
 
 	eventbus "github.com/jilio/ebu"
+	ebuotel "github.com/jilio/ebu/otel"
+	sdkmetric "go.opentelemetry.io/otel/sdk/metric"
+	sdktrace "go.opentelemetry.io/otel/sdk/trace"
 	"pgregory.net/rapid"
 
 	"ebusim/core"
@@ -36,6 +39,9 @@ type C08Scenario struct {
 	Pubs   []C08Pub `json:"pubs"`
 	Hooks  int      `json:"hooks"` // bit 0 legacy before, 1 ctx before, 2 legacy after, 3 ctx after
 	Obs    bool     `json:"obs,omitempty"`
+	// OTel (with Obs): the observability implementation is the bundled OpenTelemetry one on SDK providers,
+	// whose hooks return the contexts that handlers receive
+	OTel bool `json:"otel,omitempty"`
 	ViaAny bool     `json:"via_any,omitempty"`
 	SetAPI bool     `json:"set_api,omitempty"` // install the legacy hooks with the Set*Hook methods instead of options
 	SetNil bool     `json:"set_nil,omitempty"` // additionally call Set*Hook(nil) for the legacy hooks that are not installed
@@ -74,6 +80,7 @@ func genC08(rt *rapid.T) core.Scenario {
 	}
 	sc.Hooks = rapid.IntRange(0, 15).Draw(rt, "hooks")
 	sc.Obs = rapid.IntRange(0, 4).Draw(rt, "obs") == 4
+	sc.OTel = sc.Obs && rapid.Bool().Draw(rt, "otel")
 	sc.ViaAny = rapid.IntRange(0, 4).Draw(rt, "viaAny") == 4
 	sc.SetAPI = rapid.IntRange(0, 3).Draw(rt, "setAPI") == 3
 	sc.SetNil = rapid.IntRange(0, 3).Draw(rt, "setNil") == 3
@@ -152,7 +159,18 @@ func (sc *C08Scenario) Execute(t *testing.T) *core.Outcome {
 		if sc.Hooks&8 != 0 {
 			opts = append(opts, eventbus.WithAfterPublishContext(func(ctx context.Context, et reflect.Type, ev any) { hook(3, ctx, et, ev) }))
 		}
-		if sc.Obs {
+		if sc.Obs && sc.OTel {
+			tp := sdktrace.NewTracerProvider()
+			mp := sdkmetric.NewMeterProvider(sdkmetric.WithReader(sdkmetric.NewManualReader()))
+			o, err := ebuotel.New(ebuotel.WithTracerProvider(tp), ebuotel.WithMeterProvider(mp))
+			if err != nil {
+				out.HarnessErr = err.Error()
+				return
+			}
+			defer tp.Shutdown(context.Background())
+			defer mp.Shutdown(context.Background())
+			opts = append(opts, eventbus.WithObservability(o))
+		} else if sc.Obs {
 			opts = append(opts, eventbus.WithObservability(nopObs{}))
 		}
 		if sc.Persist {
